@@ -19,7 +19,11 @@ import (
 	"strconv"
 	"strings"
 	"sync"
+	"time"
 )
+
+// how long a passive socket waits for the client to connect
+const passiveAcceptTimeout = 30 * time.Second
 
 // A data socket is used to send non-control data between the client and
 // server.
@@ -92,6 +96,7 @@ func (socket *ftpActiveSocket) Close() error {
 }
 
 type ftpPassiveSocket struct {
+	listener  net.Listener
 	conn      net.Conn
 	port      int
 	host      string
@@ -140,6 +145,11 @@ func (socket *ftpPassiveSocket) Write(p []byte) (n int, err error) {
 }
 
 func (socket *ftpPassiveSocket) Close() error {
+	// stop waiting for a client that never connected
+	if socket.listener != nil {
+		socket.listener.Close()
+	}
+
 	if socket.conn != nil {
 		return socket.conn.Close()
 	}
@@ -154,11 +164,16 @@ func (socket *ftpPassiveSocket) GoListenAndServe(sessionid string) (err error) {
 	}
 
 	var listener net.Listener
-	listener, err = net.ListenTCP("tcp", laddr)
+	tcpListener, err := net.ListenTCP("tcp", laddr)
 	if err != nil {
 		log.Debug(sessionid, err.Error())
 		return
 	}
+
+	// the client gets a bounded time to open the data connection
+	tcpListener.SetDeadline(time.Now().Add(passiveAcceptTimeout))
+
+	listener = tcpListener
 
 	add := listener.Addr()
 	parts := strings.Split(add.String(), ":")
@@ -175,15 +190,22 @@ func (socket *ftpPassiveSocket) GoListenAndServe(sessionid string) (err error) {
 		listener = tls.NewListener(listener, socket.tlsConfig)
 	}
 
+	socket.listener = listener
+
 	go func() {
 		conn, err := listener.Accept()
-		socket.wg.Done()
+
+		// one data connection per passive socket: the listening socket is not needed any more
+		listener.Close()
+
 		if err != nil {
 			socket.err = err
-			return
+		} else {
+			socket.err = nil
+			socket.conn = conn
 		}
-		socket.err = nil
-		socket.conn = conn
+
+		socket.wg.Done()
 	}()
 	return nil
 }
